@@ -700,6 +700,9 @@ func init() {
 			"generic and network) x stop-on-failed on/off; thorough does the same for length 5, adds every pattern of length 6 x 13 combinations x stop on/off with the API rotated, " +
 			"and both tiers add random sessions (quick 60, thorough 3000; 6 operations each) with longer lists (quick 5-12, thorough 7-14 commands) and random failure lists of up to 6 strings " +
 			"(occasionally containing the host name, which occurs in the prompt only and counts iff the prompt is not stripped). " +
+			"Every operation passes its options as a PRNG permutation of the generic-driver options (operation-level failure list, stop-on-failed) mixed with options of other layers " +
+			"(no-strip-prompt and exact-match, which the reference accounts for; and the neutral WithTimeoutOps(90s), WithInterimPromptPattern(never matching), WithPrivilegeLevel(configuration) on config calls); " +
+			"observed shapes counted as generic-only / generic-first / generic-after-foreign / interleaved. " +
 			"Decoys: unlisted string, driver-level string while an operation-level list overrides it, string of another operation's list, string only in the echoed command, " +
 			"case variant, string broken by a newline, proper prefix. Placement first/middle/last line x start/mid/end/whole line, optionally broken by an escape sequence or CR, several per output. " +
 			"Non-trivial = a session in which at least one returned member failed per the reference (a failure string in force is present in some output). Distinct = distinct descriptor hash.",
